@@ -954,3 +954,30 @@ Proof.
   exact (loop_listing_limit L cap ds render trailer resolve c Hnd Hne Hgt Hres Hex
            fuel 0%nat 0%nat (mkUrl path (start_query c)) last0 (start_rest c last0 L) pre Hrest Hpre Hat Hfuel).
 Qed.
+
+(* ---------- referrers tag schema ---------- *)
+
+Lemma tag_schema_spec limit size items a cb_fail :
+  let r := tag_schema limit true size items a cb_fail in
+  ((eff_limit limit < size)%Z -> r = ([], ErrSize)) /\
+  ((size <= eff_limit limit)%Z ->
+     Forall (fun p => p <> []) (fst r) /\
+     concat (fst r) = filter_referrers items a /\
+     (snd r = Done \/ (snd r = ErrCallback /\ cb_fail 0%nat = true /\ fst r <> [])) /\
+     (cb_fail 0%nat = false -> snd r = Done)).
+Proof.
+  unfold tag_schema. cbn [negb]. split.
+  - intro H. apply limit_size_spec in H. now rewrite H.
+  - intro H. assert (E : limit_size_rejects limit size = false).
+    { destruct (limit_size_rejects limit size) eqn:E; [|reflexivity]. apply limit_size_spec in E. lia. }
+    rewrite E. destruct (filter_referrers items a) as [|x f] eqn:F.
+    + simpl. repeat split; auto.
+    + destruct (cb_fail 0%nat) eqn:C; simpl; rewrite app_nil_r.
+      * split; [repeat constructor; discriminate|]. split; [reflexivity|]. split; [|discriminate].
+        right. split; [reflexivity|]. split; [reflexivity|discriminate].
+      * split; [repeat constructor; discriminate|]. split; [reflexivity|]. split; [now left|reflexivity].
+Qed.
+
+Lemma tag_schema_absent limit size items a cb_fail :
+  tag_schema limit false size items a cb_fail = ([], Done).
+Proof. reflexivity. Qed.
